@@ -241,6 +241,46 @@ def eps_delta(ctx, prefix="C05"):
             ctx.count(r[0])
 
 
+def refused_edge_stream(ctx, n):
+    """an edge that is refused (mismatching dimensions) is not part of the diagram: evaluating afterwards — directly, or after
+    further valid edges — gives what the same diagram gives without the refused call"""
+    from geometer.base import Tensor, TensorDiagram
+    from geometer.exceptions import TensorComputationError
+    rng = ctx.rng
+    for k in range(n):
+        da, db = rng.sample([2, 3, 4], 2)
+        A = Tensor(np.array([rng.randint(-3, 3) for _ in range(da * da)]).reshape(da, da), covariant=[0])      # (1,1), dimension da
+        B = Tensor(np.array([rng.randint(-3, 3) for _ in range(db)]), covariant=False)                       # contravariant vector, dimension db
+        C = Tensor(np.array([rng.randint(-3, 3) for _ in range(da)]), covariant=False)                       # contravariant vector, dimension da
+        follow = rng.random() < 0.5
+        desc = f"refused edge: A {A.array.tolist()} (1,1) dim {da}; B {B.array.tolist()} dim {db}; then {'edge (A, C), C=' + str(C.array.tolist()) if follow else 'nothing'}"
+        ctx.case(desc, nontrivial=True)
+        ctx.count("refused-edge")
+        def with_refusal():
+            d = TensorDiagram()
+            d.add_node(A); d.add_node(B)
+            try:
+                d.add_edge(A, B)
+                return "no error"
+            except TensorComputationError:
+                pass
+            if follow:
+                d.add_edge(A, C)
+            return d.calculate()
+        def without():
+            d = TensorDiagram()
+            d.add_node(A); d.add_node(B)
+            if follow:
+                d.add_edge(A, C)
+            return d.calculate()
+        r, e = call_impl(with_refusal), call_impl(without)
+        ok = r[0] == "ok" and e[0] == "ok" and not isinstance(r[1], str) and r[1].array.shape == e[1].array.shape and np.array_equal(r[1].array, e[1].array) \
+            and r[1].tensor_shape == e[1].tensor_shape
+        if not ok:
+            ctx.disagree("C05:refused-edge", desc, (e[1].array.tolist(), e[1].tensor_shape) if e[0] == "ok" else e[1:3],
+                         (r[1] if isinstance(r[1], str) else (r[1].array.tolist(), r[1].tensor_shape)) if r[0] == "ok" else r[1:3], replay=[desc])
+
+
 def loop_edges(ctx, n):
     """an edge whose two ends are the same node object (a trace): the contraction is the same whether the node has been added
     before or is added by this very edge; compared with numpy's own einsum on the node's array"""
@@ -303,6 +343,7 @@ def reevaluate(ctx, n):
 def correspondence(ctx):
     reevaluate(ctx, ctx.budget(20, 200))
     loop_edges(ctx, ctx.budget(30, 300))
+    refused_edge_stream(ctx, ctx.budget(30, 300))
     # minimised past failures first
     import glob, json, os
     for f in sorted(glob.glob(os.path.join(os.path.dirname(__file__), "..", "..", "corpus", "C05", "*.json"))):
